@@ -20,7 +20,7 @@ New(e) == LET J == Inst(e) IN
   /\ live' = (e.outcome = "ok") /\ I' = J
   /\ agg' = IF e.outcome = "ok" /\ ~Degenerate(J, e.shares) THEN Zeros(e.outlen) ELSE <<>>
 Report(e) ==
-  /\ live /\ e.panics = 0 /\ e.rt_ok
+  /\ live /\ e.panics = 0 /\ e.rt_ok /\ e.owned     \* owned: the PrepState does not change when the caller decodes another report into the InputShare object it passed
   /\ IF e.kind = "honest"
      THEN IF IsMeasurement(I, e.m)
           THEN ~e.encode_err /\ SameVec(e.enc, Encode(I, e.m)) /\ e.bound /\ (e.accepted = (e.site = "none"))
